@@ -360,7 +360,7 @@ def main(rep, tier, only):
         if retk != want:
             why = "combine(%s, %s) yields %s, specification %s: a hard error would become recoverable by optional / many" % (k[0], k[1], retk, want)
         elif want == "missing_error":
-            rets = [T.show(T.norm(u, r["e"])) for r in F.walk(fn.get("body"), into_lambdas=False) if r.get("k") == "return"]
+            rets = [T.show(T.snorm(u, fn, r["e"])) for r in F.walk(fn.get("body"), into_lambdas=False) if r.get("k") == "return"]
             if not rets or "r_a1.state()" not in rets[0]:
                 why = "missing+missing does not carry the second error's state: %s" % rets
         key = "SUM-3|combine(%s,%s)" % k
